@@ -17,14 +17,15 @@ var burstPts = []Pt{{"m1", "a"}, {"m2", "b"}, {"m1", "b"}, {"m2", "a"}}
 
 // burst is the write step of the systematic enumeration: one WritePoints call
 // of four points (2 measurements x 2 tag values) for each of the four dbrps,
-// alternately through the Go API and the HTTP /write handler; the first call
+// alternately through the Go API and the HTTP /write handler (once as a gzip
+// body with Content-Length, once as a body of unknown length); the first call
 // leaves the retention policy to the TaskMaster default.
 func burst(sync bool) []Op {
 	return []Op{
 		{Kind: "write", DB: "d1", RP: "", Pts: burstPts},
-		{Kind: "write", DB: "d1", RP: "rp2", Pts: burstPts, HTTP: true},
+		{Kind: "write", DB: "d1", RP: "rp2", Pts: burstPts, HTTP: true, Enc: "gzip"},
 		{Kind: "write", DB: "d2", RP: "rp2", Pts: burstPts},
-		{Kind: "write", DB: "d2", RP: "rp1", Pts: burstPts, HTTP: true, Sync: sync},
+		{Kind: "write", DB: "d2", RP: "rp1", Pts: burstPts, HTTP: true, Enc: "chunked", Sync: sync},
 	}
 }
 
@@ -107,12 +108,39 @@ func allAppear(ids []string, h []step) bool {
 	return true
 }
 
+// bigWrites: one HTTP write of 60 points per dbrp (a body that really compresses),
+// in the four encodings; every acknowledged point must be delivered.
+func bigWrites() []Op {
+	pts := make([]Pt, 0, 60)
+	for i := 0; i < 60; i++ {
+		pts = append(pts, burstPts[i%len(burstPts)])
+	}
+	return []Op{
+		{Kind: "write", DB: "d1", RP: "rp1", Pts: pts, HTTP: true, Enc: "gzip"},
+		{Kind: "write", DB: "d1", RP: "rp2", Pts: pts, HTTP: true, Enc: "gzip-chunked"},
+		{Kind: "write", DB: "d2", RP: "rp2", Pts: pts, HTTP: true, Enc: "chunked"},
+		{Kind: "write", DB: "d2", RP: "rp1", Pts: pts, HTTP: true, Enc: "", Sync: true},
+	}
+}
+
+// dyingNeighbour: targeted histories with a task (t1) that dies at run time and is
+// not stopped, next to healthy tasks sharing its fork keys: the survivors must
+// still receive every point.  "await" gives the failure time to reach the fork edge.
+var dyingNeighbour = [][]step{
+	{{"start", "t1"}, {"start", "t2"}, {"Ws", ""}, {"await", "t1"}, {"Ws", ""}, {"Ws", ""}},
+	{{"start", "t2"}, {"start", "t1"}, {"start", "t3"}, {"Ws", ""}, {"await", "t1"}, {"Wn", ""}, {"stop", "t1"}, {"Ws", ""}},
+}
+
 func runHistory(w *World, t *rt.Trace, tasks map[string]Shape, h []step, mode string) {
 	tr := w.Begin(t, tasks, mode)
 	for _, s := range h {
 		switch s.kind {
 		case "Ws", "Wn":
 			for _, op := range burst(s.kind == "Ws") {
+				tr.Do(op)
+			}
+		case "Wbig":
+			for _, op := range bigWrites() {
 				tr.Do(op)
 			}
 		default:
@@ -135,12 +163,24 @@ func histKey(tasks map[string]Shape, h []step) string {
 
 // Lab owns the current World and replaces it when a lifecycle call got stuck.
 type Lab struct {
-	w     *World
-	hangs []string
+	w          *World
+	hangs      []string
+	pastDeaths int
+}
+
+func (l *Lab) deaths() int {
+	n := l.pastDeaths
+	if l.w != nil {
+		n += l.w.deaths
+	}
+	return n
 }
 
 func (l *Lab) world() *World {
 	if l.w == nil || l.w.dead.Load() {
+		if l.w != nil {
+			l.pastDeaths += l.w.deaths
+		}
 		w, err := NewWorld()
 		if err != nil {
 			rt.Fatalf("new world: %v", err)
@@ -186,10 +226,12 @@ func Run(r *rt.Run) error {
 	tc := r.NewTrace("conc")
 
 	singleLen, pairLen, pairDeepLen, nPairsDeep, tripleLen, nTriples, tripleDeepLen, nTriplesDeep, nInterf := 4, 3, 4, 8, 4, 6, 0, 0, 4
+	nDyingReps := 1
 	nRandom, nConc := 250, 150
 	if r.Thorough() {
 		singleLen, pairLen, pairDeepLen, nPairsDeep, tripleLen, nTriples, tripleDeepLen, nTriplesDeep, nInterf = 6, 4, 5, 10, 4, 30, 5, 3, len(interference)
 		nRandom, nConc = 2000, 1000
+		nDyingReps = 4
 	}
 	count := 0
 	// every history for one task set; a stuck call skips the rest of the set
@@ -235,6 +277,38 @@ func Run(r *rt.Run) error {
 			}
 		}
 	}
+	// a neighbour that dies at run time (both dying shapes x every catalogue shape, repeated so
+	// that map iteration order cannot hide a point that stops at the dead edge)
+	for rep := 0; rep < nDyingReps; rep++ {
+		for _, d := range dyingShapes {
+			for _, s := range catalogue {
+				tasks := map[string]Shape{"t1": d, "t2": s, "t3": s}
+				for _, h := range dyingNeighbour {
+					ids := map[string]Shape{}
+					for _, st := range h {
+						if st.t != "" {
+							ids[st.t] = tasks[st.t]
+						}
+					}
+					key := histKey(ids, h) + fmt.Sprint(rep)
+					if lab.run(key, func(w *World) { runHistory(w, tx, ids, h, "seq") }) {
+						tx.Distinct(key)
+						count++
+					}
+				}
+			}
+		}
+	}
+	// large compressed / chunked HTTP writes: everything acknowledged is delivered
+	for _, s := range catalogue {
+		tasks := map[string]Shape{"t1": s}
+		h := []step{{"start", "t1"}, {"Wbig", ""}}
+		key := histKey(tasks, h)
+		if lab.run(key, func(w *World) { runHistory(w, tx, tasks, h, "seq") }) {
+			tx.Distinct(key)
+			count++
+		}
+	}
 	rshape := func() Shape { return catalogue[r.Rand.Intn(len(catalogue))] }
 	// a seeded sample of pairs one step deeper
 	for n := 0; n < nPairsDeep; n++ {
@@ -266,12 +340,18 @@ func Run(r *rt.Run) error {
 	r.Extra["task_triples_sampled_deeper"] = fmt.Sprintf("%d triples at length %d", nTriplesDeep, tripleDeepLen)
 	r.Extra["targeted_two_task_histories_per_ordered_pair"] = nInterf
 	r.Extra["stuck_lifecycle_calls"] = lab.hangs
+	r.Extra["dying_neighbour_histories"] = nDyingReps * len(dyingShapes) * len(catalogue) * len(dyingNeighbour)
+	r.Extra["dying_tasks_with_aborted_fork_edge_when_stopped"] = lab.deaths()
+	if lab.w != nil {
+		r.Extra["dying_tasks_still_alive_after_feeding"] = lab.w.notDying
+	}
 	r.Finish(fmt.Sprintf("real TaskMaster; tasks are TICKscripts with |log().prefix('<task>/<k>') under every from(); "+
 		"every history of exactly the given length in which every task appears over {start,stop,delete} per task (only when applicable) + {burst and wait for fork, burst without waiting} "+
 		"(a burst = 4 WritePoints calls x 4 points over 4 dbrps x 2 measurements x 2 tag values, alternately Go API and HTTP /write) "+
 		"for every one of %d catalogue shapes alone (length %d), every unordered pair (%d pairs, length %d), %d seeded triples (length %d); "+
 		"targeted two-task histories of length 4-6 for every ordered pair (stop/delete/restart/failed start of one task, then write: the other task must get everything); "+
-		"then seeded random histories (random shapes, 1-3 tasks, single writes, no-op stops) and histories with a concurrent writer goroutine; "+
+		"a neighbour task that dies at run time (refused httpOut route) next to every catalogue shape sharing its fork keys; 60-point HTTP writes gzip/chunked; "+
+		"then seeded random histories (random shapes, 1-3 tasks, single writes incl. gzip/chunked HTTP bodies of up to 69 points, no-op stops, failed starts, dying tasks) and histories with a concurrent writer goroutine; "+
 		"non-trivial = history with at least one write, distinct by (task set, operation sequence)",
 		len(catalogue), singleLen, len(catalogue)*(len(catalogue)+1)/2, pairLen, nTriples, tripleLen), false)
 	return nil
@@ -321,7 +401,15 @@ func randomShape(r *rt.Run) Shape {
 
 func randomWrite(r *rt.Run) Op {
 	op := Op{Kind: "write", DB: pick(r, rDBs), RP: pick(r, rRPs), HTTP: r.Rand.Intn(3) == 0, Sync: r.Rand.Intn(2) == 0}
-	for k := 1 + r.Rand.Intn(3); k > 0; k-- {
+	n := 1 + r.Rand.Intn(3)
+	if op.HTTP {
+		op.Enc = pick(r, []string{"", "gzip", "chunked", "gzip-chunked"})
+		if r.Rand.Intn(5) == 0 {
+			n = 20 + r.Rand.Intn(50) // a body that really compresses; fenced (it is about the HTTP body, not about races)
+			op.Sync = true
+		}
+	}
+	for k := n; k > 0; k-- {
 		op.Pts = append(op.Pts, Pt{pick(r, rMeas), pick(r, rTags)})
 	}
 	return op
@@ -332,6 +420,9 @@ func runRandom(r *rt.Run, w *World, t *rt.Trace) {
 	tasks := map[string]Shape{}
 	for _, id := range ids {
 		tasks[id] = randomShape(r)
+	}
+	if len(ids) > 1 && r.Rand.Intn(4) == 0 {
+		tasks[ids[0]] = tasks[ids[0]].dying()
 	}
 	tr := w.Begin(t, tasks, "seq")
 	key := histKey(tasks, nil)
